@@ -180,6 +180,17 @@ def opsC05 : List (String × Handler) := [
       let c ← parseCell t
       pure (outStr (omap (decodeE kt vt c) (showEntries kt vt)))
     | _ => none),
+  -- bare tlb.Hashmap: Put, Marshal into a fresh cell / Unmarshal from the root cell
+  ("hmb.build", fun a => withTypes a fun kt vt rest => do
+    let ops ← rest.mapM (parseEntry kt vt)
+    pure (outStr (omap (marshal (codecOf vt) kt.n (applyPuts kt [] ops)) cellText))),
+  ("hmb.decode", fun a => withTypes a fun kt vt rest =>
+    match rest with
+    | [t] => do
+      let c ← parseCell t
+      pure (outStr (omap (omap (unmarshal (codecOf vt) kt.n c) fun d => d.map fun kv => (normKey kt kv.1, kv.2))
+        (showEntries kt vt)))
+    | _ => none),
   -- Unmarshal, then Get for each listed key
   ("hm.get", fun a => withTypes a fun kt vt rest =>
     match rest with
